@@ -53,6 +53,8 @@ def new_state():
         "vid": 0,
         "vals": {},  # version id -> value (to recognise a stale value when one is offered)
         "last": {},  # lkey -> [ctx, status] of the latest completed execution (rerun requests)
+        "passes": {},  # lkey(transition id, lineage) -> times taken (loop passes into a split task)
+        "rmap": {"0": []},  # engine route number -> reference lineage (bound when the route appears)
         "unhandled": [],  # [task, lineage] of failed executions nothing handled (default rerun set)
         "handled_terminal": [],  # failed executions handled by a command only (no successor task)
     }
@@ -121,14 +123,26 @@ class Ref(object):
         return cur
 
     # ------------------------------------------------------------ lineage
-    def child_lineage(self, lineage, src, tidx, tgt):
+    @staticmethod
+    def strip(lineage):
+        """Lineage without the pass counters = the content of the engine's route."""
+        return [x.split("#", 1)[0] for x in lineage]
+
+    def child_lineage(self, lineage, src, tidx, tgt, g=None):
+        """Entering a multi-referenced task outside a cycle opens a new lineage - every time: a second pass
+        of a loop through the same transition is a different lineage (element = transition id # pass)."""
         d = self.d
         if not d.is_split(tgt) or d.in_cycle(tgt):
             return lineage
         tid = "%s__t%d" % (src, d.edge_key(src, tidx, tgt))
-        if tid in lineage:
+        if tid in self.strip(lineage):
             return lineage
-        return lineage + [tid]
+        n = 0
+        if g is not None:
+            k = lkey(tid, lineage)
+            n = g["passes"].get(k, 0)
+            g["passes"][k] = n + 1
+        return lineage + ["%s#%d" % (tid, n)]
 
     # ------------------------------------------------------------ start
     def start(self, g, init_values):
@@ -319,7 +333,7 @@ class Ref(object):
                         a["pending"] = True
                         g["tok"].append([tgt, lineage, None, 0, False, task, False])
                 else:
-                    nl = self.child_lineage(lineage, task, tidx, tgt)
+                    nl = self.child_lineage(lineage, task, tidx, tgt, g)
                     g["tok"].append([tgt, nl, new_ctx, 0, False, task, False, "fail" in tr["do"]])
                     info["targets"].append([tgt, nl, "token"])
         info["handled"] = handled
